@@ -38,7 +38,10 @@ def run_verus(path, rlimit=60, extra=(), multiple=25):
     cmd = [VERUS, path, "--output-json", "--time", "--error-format=json", "--multiple-errors", str(multiple), "--rlimit", str(rlimit),
            "--triggers-mode", "silent", "--num-threads", "8"] + list(extra)
     t0 = time.time()
-    p = sh(cmd, cwd=os.path.dirname(path))
+    try:
+        p = sh(cmd, cwd=os.path.dirname(path), timeout=1200)
+    except subprocess.TimeoutExpired:
+        return " ".join(cmd), 124, None, [], "verus timed out after 1200 s", time.time() - t0
     wall = time.time() - t0
     out = None
     try:
@@ -513,4 +516,13 @@ def main():
 
 
 if __name__ == "__main__":
-    sys.exit(main())
+    try:
+        rc = main()
+    except SystemExit:
+        raise
+    except BaseException as e:  # a bug of the machinery is never an alarm
+        import traceback
+        traceback.print_exc()
+        print("UNDECIDED: the check itself failed (%r); nothing is reported about the property" % (e,))
+        rc = 2
+    sys.exit(rc)
